@@ -11,6 +11,7 @@ package pbcmpl
 
 import (
 	"io"
+	"io/ioutil"
 
 	"github.com/openacid/errors"
 
@@ -119,9 +120,22 @@ func Unmarshal(r io.Reader, msg proto.Message) (int64, string, error) {
 		return n, ver, errors.WithStack(ErrInvalidHeaderSize)
 	}
 
-	b := make([]byte, hi.GetBodySize())
-	nbody, err := io.ReadFull(r, b)
-	n += int64(nbody)
+	bodySize := hi.GetBodySize()
+	if bodySize < 0 {
+		return n, ver, errors.WithStack(ErrInvalidBodySize)
+	}
+
+	// Read at most bodySize bytes without trusting the header enough to
+	// pre-allocate the declared size.
+	b, err := ioutil.ReadAll(io.LimitReader(r, bodySize))
+	n += int64(len(b))
+	if err == nil && int64(len(b)) < bodySize {
+		if len(b) == 0 {
+			err = io.EOF
+		} else {
+			err = io.ErrUnexpectedEOF
+		}
+	}
 	if err != nil {
 		return n, ver, errors.WithStack(err)
 	}
